@@ -22,6 +22,8 @@ CONFIGS = {
     # packages in one process then define a same-named Go enum type with different tables
     "vmain_r2": (["@rev2/v-main.yang", "v-types.yang", "v-defu.yang"], ["-generate_simple_unions"], {"compress": False, "wrapper_unions": False, "rev2": True}),
     "voc_u": (["v-oc.yang"], ["-generate_simple_unions"], {"compress": False, "wrapper_unions": False}),
+    "vlref_u": (["v-lref.yang"], ["-generate_simple_unions"], {"compress": False, "wrapper_unions": False, "lrefp": True, "private": True}),
+    "vcolon_u": (["v-colon.yang"], ["-generate_simple_unions"], {"compress": False, "wrapper_unions": False, "colon": True, "private": True}),
 }
 
 REGISTER = '''//go:build verif
